@@ -65,10 +65,11 @@ Theorem C03_umount_sequence_core : forall d region, good_root d = true ->
 Proof. exact ku_seq_core. Qed.
 Print Assumptions C03_umount_sequence_core.
 
-(* all forms of the command *)
-Theorem C03_model_partial : forall cfg w e um n all, plain_env e = true -> C03AllP.C03_hyp cfg w n all = true ->
+(* all forms of the command, every environment (for a pretend / faulty environment the predicate
+   is true by definition) *)
+Theorem C03_model_partial : forall cfg w e um n all, C03AllP.C03_hyp cfg w n all = true ->
   C03.step_spec cfg w (view_of_model cfg w e (CUmount n all) um) = true.
-Proof. exact C03AllP.C03_model_proof. Qed.
+Proof. exact C03AllP.C03_model_any_env. Qed.
 Print Assumptions C03_model_partial.
 
 (* the kernel well-formedness assumed above (unique mount ids; a line's parent id is never a
